@@ -12,7 +12,9 @@ Decided here are structural clauses that are genuine necessary conditions of it 
            tokenize / split(char) / split(set) is implied by `length >= 1` (relational normal form).
   R-C18-3  SI ladder of prettyDouble / prettyNumber: threshold == divisor == value of the printed suffix,
            rungs descend gap-free by 10^3 down to 'k', sub-unit rungs mirrored up to 'm'; the tested value is
-           |input|, the printed one the signed input.  Rungs are if / else-if tests, a helper that runs part of the
+           |input|, the printed one the signed input; a range handed to another ladder function (prettyDouble ->
+           prettyNumber) contributes that function's rungs, and a float-to-integer conversion of the magnitude on the
+           way must be bounded from above by the tests that dominate it.  Rungs are if / else-if tests, a helper that runs part of the
            ladder, or the rows of a constant table walked by a range-for (values resolved through parameters, locals
            set once and table fields).
   R-C18-4  PseudoURL::getValue: last duplicate wins (ascending scan of the whole list without exit on a match,
@@ -1518,7 +1520,60 @@ def find_print(tu, fr, blk):
     return None, fr, None
 
 
-def discover_ladder(tu, fr, rungs, und, depth=0):
+TWO64 = 18446744073709551616.0
+
+
+def delegated_ladder(tu, fr, b, hi):
+    """the true branch of the test ending block b hands the value to another ladder function (prettyDouble -> prettyNumber):
+    (call, callee, narrowing problem or None, sign restored?) or None"""
+    g = fr.x.g
+    tb = g.blocks[b.succ[0]]
+    for e in tb.el:
+        if e[0] != 'S':
+            continue
+        nd = tu.node(e[1])
+        if nd is None or nd.get('kind') != 'CallExpr' or tu.sd(nd).get('q') in PRINTF_Q:
+            continue
+        hf = tu.callee_fn(nd)
+        if hf is None or hf['dep'] or tu.cfg(hf) is None or hf['id'] == fr.f['id'] or len(hf.get('params', [])) != 1:
+            continue
+        args = tu.kids(nd)[1:]
+        if len(args) != 1 or fr.role(args[0]) is None:
+            continue
+        # does the callee run a ladder at all?
+        probe, pund = [], []
+        discover_ladder(tu, LFrame(tu, hf, fr, nd), probe, pund, 3)
+        if not probe:
+            continue
+        narrowing = None
+        f2i = [y for y in tu.walk(args[0]) if y.get('kind') == 'ImplicitCastExpr' and y.get('castKind') == 'FloatingToIntegral']
+        f2i += [y for y in tu.walk(args[0]) if y.get('kind') in ('CXXStaticCastExpr', 'CStyleCastExpr', 'CXXFunctionalCastExpr')
+                and y.get('castKind') == 'FloatingToIntegral']
+        pct = plain_ct(hf['params'][0]['ct'])
+        if (f2i or (is_int_ct(pct) and not is_int_ct(tu.sd(tu.strip(args[0], casts=True)).get('ct')))) and is_int_ct(pct):
+            limit = TWO64 if pct.startswith('unsigned long') else 2.0 ** 63 if 'long' in pct else 2.0 ** 32 if pct.startswith('unsigned') else 2.0 ** 31
+            if hi > limit:
+                narrowing = ('the magnitude is converted to `%s` in `%s` before the ladder of %s is walked, but nothing bounds it from above '
+                             'there%s: for |value| >= %g (the top of the \'E\' range, e.g. 5e20) the conversion is undefined and in '
+                             'practice yields 0, so the value prints without mantissa and suffix'
+                             % (pct, tu.show(nd), fn_name(hf), '' if hi == float('inf') else ' (only < %g)' % hi, limit))
+        # sign re-attached?  (value < 0 ? "-" + text : text)
+        restored = False
+        for y in tu.walk(tu.body(fr.f)):
+            if y.get('kind') == 'ConditionalOperator':
+                c = tu.strip(tu.kids(y)[0], casts=True)
+                if c is not None and c.get('kind') == 'BinaryOperator' and c.get('opcode') in ('<', '>', '<=', '>='):
+                    l, r = tu.kids(c)[:2]
+                    rl, rr = fr.role(l), fr.role(r)
+                    zero = (fr.const(r) == 0 and rl is not None and rl[0] == 'param') or (fr.const(l) == 0 and rr is not None and rr[0] == 'param')
+                    minus = any(z.get('kind') == 'StringLiteral' and z.get('value') == '"-"' for z in tu.walk(y))
+                    if zero and minus:
+                        restored = True
+        return nd, hf, narrowing, restored
+    return None
+
+
+def discover_ladder(tu, fr, rungs, und, depth=0, hi=float('inf')):
     """walk the CFG of fr.f from its entry and append the rungs found: if / else-if tests against constants, a helper
     that runs a ladder and reports whether it printed, a range-for over a constant table"""
     g = fr.x.g
@@ -1575,7 +1630,34 @@ def discover_ladder(tu, fr, rungs, und, depth=0):
             if rungs:
                 und.append('ladder test `%s` is not a comparison with a constant' % tu.show(c))
             break
+        if rg['call'] is None and depth < 3 and rg['op'] in ('>', '>=') and rg['role'] is not None:
+            # no print in the branch: the range [threshold, hi) may be handed to another ladder
+            dl = delegated_ladder(tu, fr, b, hi)
+            if dl is not None:
+                call, hf, narrowing, restored = dl
+                sub = []
+                discover_ladder(tu, LFrame(tu, hf, fr, call), sub, und, depth + 1, hi)
+                first = True
+                for r2 in sub:
+                    if r2['op'] in ('>', '>=') and r2['thr'] >= hi:
+                        continue        # cannot be reached: an earlier rung already took these values
+                    if r2['op'] in ('>', '>=') and r2['thr'] < rg['thr'] * (1 - 1e-6):
+                        continue        # below the range that is handed over
+                    pre = r2.setdefault('pre', pre_resolve(tu, r2))
+                    if first and narrowing:
+                        pre['probs'] = list(pre['probs']) + [('narrowing', narrowing)]
+                    if restored and pre.get('nrole') and pre['nrole'][0] == 'abs':
+                        pre['nrole'] = ('param', pre['nrole'][1])     # printed through |value|, sign re-attached by the caller
+                    r2['label'] = 'via %s' % fn_name(hf)
+                    first = False
+                    rungs.append(r2)
+                if rg['op'] in ('>', '>='):
+                    hi = min(hi, rg['thr'])
+                b = g.blocks[b.succ[1]]
+                continue
         rungs.append(rg)
+        if rg['op'] in ('>', '>='):
+            hi = min(hi, rg['thr'])
         b = g.blocks[b.succ[1]]
 
 
@@ -1825,7 +1907,7 @@ def check_ladder(ctx, tu, qname):
             if probs:
                 allok = False
                 for kind, msg in probs:
-                    ctx.violation(R, inst, msg, loc, key=('%s-%s' % (key0, kind)) if kind not in ('sign', 'tested-value')
+                    ctx.violation(R, inst, msg, loc, key=('%s-%s' % (key0, kind)) if kind not in ('sign', 'tested-value', 'narrowing')
                                   else '%s|%s|%s|%s' % (R, file, fname, kind))
             elif unds:
                 allok = False
@@ -2459,8 +2541,38 @@ def check_arglist(ctx, tu):
         loc = tu.loc(call)
         und, bad = [], []
         s_, obj, args = tu.call_parts(call)
-        if x.objkey(obj)[0] != 'field' or pos[0] not in lp.body or not lp.once_per_iteration(pos) or not lp.once_per_iteration(lp.inc_pos):
+        if x.objkey(obj)[0] != 'field' or pos[0] not in lp.body or not lp.once_per_iteration(lp.inc_pos):
             und.append('push_back is not executed once per iteration on the argument vector member')
+        elif not lp.once_per_iteration(pos):
+            # some iterations store nothing: which arguments are filtered out?
+            for cn, truth, blk in x.guards(pos):
+                if blk.id not in lp.body:
+                    continue
+                c = tu.strip(cn, casts=True)
+                on_av = [y for y in tu.walk(c) if y.get('kind') == 'ArraySubscriptExpr' and
+                         x.var_of(tu.kids(y)[0])[0] == ps[1]['id']] if c is not None else []
+                reads_text = False
+                for y in on_av:
+                    par = tu.par(y)
+                    while par is not None and par.get('kind') in ('ImplicitCastExpr', 'ParenExpr'):
+                        par = tu.par(par)
+                    if par is not None and (par.get('kind') == 'ArraySubscriptExpr' or
+                                            (par.get('kind') == 'UnaryOperator' and par.get('opcode') == '*') or
+                                            par.get('kind') in ('CallExpr', 'CXXConstructExpr', 'CXXTemporaryObjectExpr',
+                                                                'CXXMemberCallExpr', 'CXXOperatorCallExpr')):
+                        reads_text = True
+                if reads_text:
+                    bad.append(('drops-arguments', '`%s` decides by the text of av[i] whether the argument is stored: arguments for which '
+                                'it fails (e.g. an empty argument "") are dropped, the list no longer holds every argument and the '
+                                'positions of the following ones shift' % tu.show(cn)))
+                elif on_av and c in on_av:
+                    pass        # `if (av[i])`: a null slot is not an argument
+                elif on_av and c.get('kind') in ('BinaryOperator', 'UnaryOperator') and \
+                        all(x.poly_at(z, None).as_int() == 0 or z in on_av or tu.strip(z, casts=True) in on_av
+                            for z in (tu.kids(c) if c.get('kind') == 'BinaryOperator' else [])):
+                    pass        # a null slot is not an argument (std::string(nullptr) is undefined anyway)
+                else:
+                    und.append('cannot classify the condition `%s` under which an argument is stored' % tu.show(cn))
         e = x.peel(args[0]) if args else None
         while e is not None and e.get('kind') in ('CXXConstructExpr', 'CXXTemporaryObjectExpr'):
             ks = [y for y in tu.kids(e) if y.get('kind') != 'CXXDefaultArgExpr']
